@@ -184,6 +184,8 @@ func (m *Message) writeValue(b *bytes.Buffer, i, j int) error {
 		b.WriteString(strconv.FormatFloat(float64(m.DataSets[i][j].Value.(float32)), 'E', -1, 32))
 	case float64:
 		b.WriteString(strconv.FormatFloat(m.DataSets[i][j].Value.(float64), 'E', -1, 64))
+	case bool:
+		b.WriteString(strconv.FormatBool(m.DataSets[i][j].Value.(bool)))
 	case string:
 		// escapes quotes, backslashes and control characters; invalid UTF-8 becomes U+FFFD
 		s, err := json.Marshal(m.DataSets[i][j].Value.(string))
